@@ -397,6 +397,25 @@ func (w *writer) field(key string, f gen.Field) {
 	}
 }
 
+// inTuple: `name <:` / `name(1..) <:` and the nested fields one level deeper
+func (w *writer) inTuple(key string, t *gen.InTuple) {
+	s := w.x.NameStr(t.Name)
+	if t.Array {
+		s += w.x.sp() + []string{"(0..)", "(1..3)", "(0..10)"}[w.x.intn(3)]
+	}
+	k := key + "." + t.Name
+	w.line("field", k, s+w.x.sp()+"<:")
+	w.depth++
+	for _, n := range t.Fields {
+		if n.Field != nil {
+			w.field(k+"."+n.Field.Name, *n.Field)
+		} else {
+			w.inTuple(k, n.Tuple)
+		}
+	}
+	w.depth--
+}
+
 func (x *rnd) params(ps []gen.Field) string {
 	if len(ps) == 0 {
 		return ""
@@ -597,9 +616,12 @@ func (w *writer) member(key string, m gen.Member) {
 		w.line("type", k, h+x.sp()+":")
 		w.depth++
 		for _, it := range m.Items {
-			if it.Field != nil {
+			switch {
+			case it.Field != nil:
 				w.field(k+"."+it.Field.Name, *it.Field)
-			} else {
+			case it.Tuple != nil:
+				w.inTuple(k, it.Tuple)
+			default:
 				w.anno(k+"@"+it.Anno.Name, *it.Anno)
 			}
 		}
